@@ -72,6 +72,20 @@ MapE(d) == {LocM} \cup (IF d = 0 THEN {} ELSE {Obj(<<It(IdK("a"), e), It(StrK("b
 ObjE(d) == {LocO} \cup (IF d = 0 THEN {} ELSE {Obj(<<It(IdK("k"), e), It(IdK("n"), n)>>) : e \in StrE(d - 1), n \in {Lit("number", "2"), LocN}})
 TupE(d) == IF d = 0 THEN {} ELSE {List(<<e, n>>) : e \in StrE(d - 1), n \in {Lit("number", "2"), LocN}}
 
+\* type declarations
+TP(v) == [k |-> "tprim", v |-> v]
+TColl(fn, e) == [k |-> "tcoll", fn |-> fn, e |-> e]
+TObj(items) == [k |-> "tobj", items |-> items]
+TTup(es) == [k |-> "ttup", es |-> es]
+RECURSIVE TypeE(_)
+TypeE(d) ==
+  LET base == {TP("string"), TP("number"), TP("bool"), TP("any"), [k |-> "tbad", v |-> "strng"]} IN
+  IF d = 0 THEN base
+  ELSE LET prev == TypeE(d - 1) small == {TP("string"), TP("number")} IN
+       base \cup {TColl(fn, e) : fn \in {"list", "set", "map"}, e \in prev}
+            \cup {TObj(<<It(IdK("a"), e), It(IdK("b"), x)>>) : e \in prev, x \in small \cup {[k |-> "topt", e |-> TP("number")]}}
+            \cup {TObj(<<>>)} \cup {TTup(<<e, x>>) : e \in prev, x \in small} \cup {TTup(<<>>)}
+
 AnyC(t) == [k |-> "any", t |-> t]
 CRef == [k |-> "ref"]
 CLit(t) == [k |-> "lit", t |-> t]
@@ -95,6 +109,7 @@ Pairs ==
   \cup { <<CLit("string"), e>> : e \in StrE(1) }
   \cup { <<[k |-> "kw"], e>> : e \in {[k |-> "kw", v |-> "kw"], LocS} }
   \cup { <<[k |-> "typeDecl"], e>> : e \in {[k |-> "type", v |-> "string"], [k |-> "type", v |-> "list(string)"], LocS} }
+  \cup { <<[k |-> "typeDecl"], e>> : e \in TypeE(IF D > 2 THEN 2 ELSE D) }
 
 RECURSIVE HasSelf(_)
 HasSelf(e) == CASE e.k = "ref" -> IsSelf(e)
